@@ -31,7 +31,8 @@ def run(ctx, res):
     mres = prog.enums["mtbl_res"]
     OKV = mres["mtbl_res_success"]
     res.floor("C09.R1", 12)
-    fmt.entry_emit_check(ctx, res, "C09.R1")
+    from . import bbrule as _bb
+    _bb.entry_encoding(ctx, res, "C09.R1")      # the entry row and block trailer, decided on the bytes produced (was: a shape recogniser)
     fmt.restart_width_check(ctx, res, "C09.R1")
     # framing
     wb = prog.need("_mtbl_writer_write_block", W)
